@@ -968,6 +968,13 @@ class Path:
             n = 0
             while True:
                 c = self.truth(self.eval(s.test))
+                if not isinstance(c, bool) and not isinstance(c, Unknown):
+                    # a test that the path condition decides is as good as a concrete one (complete unrolling)
+                    ct = zbool(c)
+                    if self.proves(ct):
+                        c = True
+                    elif self.proves(z3.Not(ct)):
+                        c = False
                 if not isinstance(c, bool):
                     raise Unsupported(f'loop without invariant at {self.cur_loc}')
                 if not c:
